@@ -168,34 +168,27 @@ def F2(m, R):
                         if p in names_in(prev) and not (isinstance(prev, ast.Assign) and call_name(prev.value) == ro.NORMALISE):
                             problems.append('raw %s is used before it is normalised (%s)' % (p, short(prev)))
             R.check(not problems, g, c[0] if c else g.node, '%s = %s(%s, %s) before any use' % (p, ro.NORMALISE, p, want_d), '; '.join(problems), construct=cons)
-    # __getitem__: slice parts and the integer form
-    g = m.fn('AnsiString.__getitem__')
-    v = g.own_params()[0]
+    # __getitem__: slice parts and the integer form (the dispatch is evaluated per kind of argument, see getitem_head)
+    g, v, _head, heads = getitem_head(m)
     Lg = 'len(%s.%s)' % (g.self_name, ro.TEXT)
-    chain = next((n for n in g.body if isinstance(n, ast.If) and call_name(n.test) == 'isinstance'), None)
-    if chain is None:
-        raise AnalysisError('anchor vanished: type dispatch of __getitem__')
-    arms = {}
-    cur = chain
-    while cur is not None:
-        if call_name(cur.test) == 'isinstance' and norm(cur.test.args[0]) == v:
-            arms[norm(cur.test.args[1])] = cur.body
-        cur = cur.orelse[0] if len(cur.orelse) == 1 and isinstance(cur.orelse[0], ast.If) else None
-    # which locals are the normalised start / end?  the ones subtracted from / compared with the iterator index later
-    for kind in ('slice', 'int'):
-        body = arms.get(kind)
+    # which locals are start / end: the two assigned for an int index
+    for kind, scen_names in (('slice', ('slice step None', 'slice step 1')), ('int', ('int',))):
         cons = '__getitem__ %s bounds' % kind
-        if body is None:
-            R.viol(g, chain, 'no arm for %s' % kind, construct=cons)
-            continue
-        assigns = {}
-        for st in body:
-            if isinstance(st, ast.Assign) and isinstance(st.targets[0], ast.Name):
-                assigns[st.targets[0].id] = subst(st.value, assigns)
         problems = []
-        if len(assigns) < 2:
-            problems.append('start and end locals not both assigned')
-        else:
+        und = None
+        for sn in scen_names:
+            h = heads.get(sn)
+            if h is None or h[0] == 'undecided':
+                und = h[1] if h else 'not evaluated'
+                continue
+            if h[0] == 'raise':
+                problems.append('%s raises %s' % (sn, h[1]))
+                continue
+            assigns = {k_: x_ for k_, x_ in h[1].items() if call_name(x_) == ro.NORMALISE or (isinstance(x_, ast.BinOp) and isinstance(x_.op, ast.Add))
+                       or isinstance(x_, (ast.Name, ast.Attribute))}
+            if len(assigns) < 2:
+                problems.append('start and end locals not both assigned')
+                continue
             names = list(assigns)
             st_name, en_name = names[0], names[1]
             sv, evv = assigns[st_name], assigns[en_name]
@@ -213,7 +206,64 @@ def F2(m, R):
                                     'settings of s[-1] are looked up at position -1' % (st_name, norm(sv)))
                 if norm(evv) not in ('%s + 1' % norm(sv), '1 + %s' % norm(sv)):
                     problems.append('end is %s, expected start + 1' % norm(evv))
-        R.check(not problems, g, body[0], '%s index: bounds normalised like a Python slice' % kind, '; '.join(problems), construct=cons)
+        if und is not None and not problems:
+            R.undecided(g, g.node, 'type dispatch of __getitem__ not evaluated: %s' % und, construct=cons)
+        else:
+            R.check(not problems, g, g.node, '%s index: bounds normalised like a Python slice' % kind, '; '.join(sorted(set(problems))), construct=cons)
+
+
+def getitem_head(m):
+    """The type / step dispatch at the top of AnsiString.__getitem__, evaluated per kind of argument (any if / elif / guard shape):
+    {kind: ('raise', exception name) | ('bounds', {local: expression with earlier locals substituted})} for kind in
+    int, slice step None, slice step 1, slice step other, other type."""
+    g = m.fn('AnsiString.__getitem__')
+    v = g.own_params()[0]
+    step = '%s.step' % v
+    # the head: statements up to the first one that builds the result string
+    head = []
+    for st in g.body:
+        if isinstance(st, ast.Assign) and any(isinstance(x, ast.Call) and call_name(x) == 'AnsiString' for x in ast.walk(st.value)):
+            break
+        head.append(st)
+    isint = {'isinstance(%s, int)' % v: True, 'isinstance(%s, slice)' % v: False}
+    issl = {'isinstance(%s, int)' % v: False, 'isinstance(%s, slice)' % v: True}
+    both = {'isinstance(%s, (int, slice))' % v: True, 'isinstance(%s, (slice, int))' % v: True}
+    none_ = {'%s is None' % step: True, '%s is not None' % step: False, '%s in (None, 1)' % step: True, '%s not in (None, 1)' % step: False}
+    some_ = {'%s is None' % step: False, '%s is not None' % step: True}
+    # (kind, facts, numeric value of the step or None)
+    scen = [('int', dict(isint, **both), None), ('slice step None', dict(issl, **both, **none_), None),
+            ('slice step 1', dict(issl, **both, **some_, **{'%s in (None, 1)' % step: True, '%s not in (None, 1)' % step: False}), 1)]
+    for k_ in (2, 0, -1):
+        scen.append(('slice step other', dict(issl, **both, **some_, **{'%s in (None, 1)' % step: False, '%s not in (None, 1)' % step: True}), k_))
+    scen.append(('other type', {'isinstance(%s, int)' % v: False, 'isinstance(%s, slice)' % v: False, 'isinstance(%s, (int, slice))' % v: False,
+                                'isinstance(%s, (slice, int))' % v: False}, None))
+    out = {}
+    for kind, facts, stepv in scen:
+        assigns = {}
+        seen = []
+
+        def visit(st, assigns=assigns, seen=seen):
+            if isinstance(st, ast.Raise):
+                seen.append(('raise', call_name(st.exc) or norm(st.exc)))
+            elif isinstance(st, ast.Assign) and len(st.targets) == 1 and isinstance(st.targets[0], ast.Name):
+                assigns[st.targets[0].id] = subst(st.value, assigns)
+        val = flag_valuation({}, facts)
+        if stepv is not None:
+            val = merge_valuations(val, order_valuation({step: stepv}))
+        try:
+            run_block(head, val, visit)
+        except Undecided as ex:
+            out.setdefault(kind, ('undecided', str(ex)))
+            continue
+        res = seen[0] if seen else ('bounds', dict(assigns))
+        if kind == 'slice step other' and kind in out and out[kind] != res:
+            # the verdict must not depend on which other step it is
+            if out[kind][0] == 'raise' and res[0] != 'raise':
+                out[kind] = ('bounds for step %s' % stepv, {})
+            continue
+        out.setdefault(kind, res)
+    return g, v, head, out
+
 
 
 def _guard_regions(test, start, end, L, settings_states, extra_flags=None):
@@ -795,37 +845,22 @@ def F12(m, R):
         tt = {nm: eval_guard(g.test, order_valuation({p: r, '0': 0})) for nm, r in (('<0', -1), ('=0', 0), ('>0', 1))}
         ok = tt == {'<0': True, '=0': False, '>0': False}
     R.check(ok, fi, g or fi.node, 'exactly the negative integers raise ValueError', construct='scrub int sign')
-    # __getitem__
-    g = m.fn('AnsiString.__getitem__')
-    v = g.own_params()[0]
-    chain = next((n for n in g.body if isinstance(n, ast.If) and call_name(n.test) == 'isinstance'), None)
-    kinds = []
-    cur = chain
-    els = None
-    slice_body = None
-    while cur is not None:
-        if call_name(cur.test) == 'isinstance':
-            kinds.append(norm(cur.test.args[1]))
-            if norm(cur.test.args[1]) == 'slice':
-                slice_body = cur.body
-        if len(cur.orelse) == 1 and isinstance(cur.orelse[0], ast.If):
-            cur = cur.orelse[0]
-        else:
-            els = cur.orelse
-            cur = None
-    ok = sorted(kinds) == ['int', 'slice'] and els and isinstance(els[0], ast.Raise) and call_name(els[0].exc) == 'TypeError'
-    R.check(bool(ok), g, chain or g.node, 'int and slice are accepted, anything else raises TypeError', construct='getitem types')
-    sg = next((n for n in (slice_body or []) if isinstance(n, ast.If) and any(isinstance(x, ast.Raise) for x in n.body)), None)
-    ok = False
-    if sg is not None:
-        step = '%s.step' % v
-        tt = {}
-        for nm, ex in (('None', {'%s is not None' % step: False, '%s is None' % step: True}),
-                       ('1', {'%s is not None' % step: True, '%s is None' % step: False, '%s != 1' % step: False, '%s == 1' % step: True}),
-                       ('other', {'%s is not None' % step: True, '%s is None' % step: False, '%s != 1' % step: True, '%s == 1' % step: False})):
-            tt[nm] = eval_guard(sg.test, flag_valuation({}, ex))
-        ok = tt == {'None': False, '1': False, 'other': True} and any(isinstance(x, ast.Raise) and call_name(x.exc) == 'ValueError' for x in sg.body)
-    R.check(ok, g, sg or g.node, 'a slice raises ValueError exactly when its step is neither None nor 1', construct='getitem step')
+    # __getitem__ (dispatch evaluated per kind of argument)
+    g, v, _head, heads = getitem_head(m)
+    und = [k_ for k_, h_ in heads.items() if h_[0] == 'undecided']
+    if und:
+        R.undecided(g, g.node, 'type dispatch of __getitem__ not evaluated for %s: %s' % (und[0], heads[und[0]][1]), construct='getitem types')
+    else:
+        pr_ = []
+        if heads['other type'] != ('raise', 'TypeError'):
+            pr_.append('a value that is neither int nor slice: %s' % (heads['other type'],))
+        for k_ in ('int', 'slice step None', 'slice step 1'):
+            if heads[k_][0] != 'bounds':
+                pr_.append('%s: %s' % (k_, heads[k_],))
+        R.check(not pr_, g, g.node, 'int and slice are accepted, anything else raises TypeError', '; '.join(pr_), construct='getitem types')
+        ok = heads['slice step other'] == ('raise', 'ValueError') and heads['slice step None'][0] == 'bounds' and heads['slice step 1'][0] == 'bounds'
+        R.check(ok, g, g.node, 'a slice raises ValueError exactly when its step is neither None nor 1',
+                'step None -> %s, step 1 -> %s, any other step -> %s' % (heads['slice step None'][0], heads['slice step 1'][0], heads['slice step other'],), construct='getitem step')
     # __iadd__, join, constructors: accepted types and TypeError otherwise
     for qual, accepted in (('AnsiString.__iadd__', {'str', 'AnsiString'}), ('AnsiString.join', {'str', 'AnsiString'}),
                            ('AnsiString.__init__', {'str', 'AnsiString', 'AnsiStr'}), ('AnsiStr.__new__', {'str', 'AnsiString', 'AnsiStr'})):
